@@ -225,3 +225,74 @@ pub fn spec_step(q: Q, b: &[u8; 10]) -> (Cls, Option<Q>) {
 pub fn stub_format(_args: core::fmt::Arguments<'_>) -> String {
     String::new()
 }
+
+// ------------------------------------------------------------------ spec: RDH (64 bytes, little endian)
+// Independent decoding of the documented layout (RDH v6/v7):
+//  0 header_id | 1 header_size | 2-3 fee_id | 4 priority | 5 system_id | 6-7 reserved
+//  8-9 offset_to_next | 10-11 memory_size | 12 link_id | 13 packet_counter | 14-15 cru_id[11:0] dw[15:12]
+//  16-19 bc[11:0] reserved[31:12] | 20-23 orbit | 24 data_format | 25-31 reserved
+//  32-35 trigger_type | 36-37 pages_counter | 38 stop_bit | 39 reserved | 40-47 reserved
+//  48-51 detector_field | 52-53 par_bit | 54-55 reserved | 56-63 reserved
+pub fn le16(b: &[u8; 64], i: usize) -> u16 {
+    u16::from_le_bytes([b[i], b[i + 1]])
+}
+pub fn le32(b: &[u8; 64], i: usize) -> u32 {
+    u32::from_le_bytes([b[i], b[i + 1], b[i + 2], b[i + 3]])
+}
+pub fn le64(b: &[u8; 64], i: usize) -> u64 {
+    u64::from_le_bytes([b[i], b[i + 1], b[i + 2], b[i + 3], b[i + 4], b[i + 5], b[i + 6], b[i + 7]])
+}
+pub fn s_header_id(b: &[u8; 64]) -> u8 { b[0] }
+pub fn s_header_size(b: &[u8; 64]) -> u8 { b[1] }
+pub fn s_fee_id(b: &[u8; 64]) -> u16 { le16(b, 2) }
+pub fn s_priority(b: &[u8; 64]) -> u8 { b[4] }
+pub fn s_system_id(b: &[u8; 64]) -> u8 { b[5] }
+pub fn s_offset_to_next(b: &[u8; 64]) -> u16 { le16(b, 8) }
+pub fn s_memory_size(b: &[u8; 64]) -> u16 { le16(b, 10) }
+pub fn s_link_id(b: &[u8; 64]) -> u8 { b[12] }
+pub fn s_packet_counter(b: &[u8; 64]) -> u8 { b[13] }
+pub fn s_cru_id(b: &[u8; 64]) -> u16 { le16(b, 14) & 0x0FFF }
+pub fn s_dw(b: &[u8; 64]) -> u8 { (le16(b, 14) >> 12) as u8 }
+pub fn s_bc(b: &[u8; 64]) -> u16 { (le32(b, 16) & 0xFFF) as u16 }
+pub fn s_orbit(b: &[u8; 64]) -> u32 { le32(b, 20) }
+pub fn s_data_format(b: &[u8; 64]) -> u8 { b[24] }
+pub fn s_trigger_type(b: &[u8; 64]) -> u32 { le32(b, 32) }
+pub fn s_pages_counter(b: &[u8; 64]) -> u16 { le16(b, 36) }
+pub fn s_stop_bit(b: &[u8; 64]) -> u8 { b[38] }
+pub fn s_detector_field(b: &[u8; 64]) -> u32 { le32(b, 48) }
+pub fn s_par_bit(b: &[u8; 64]) -> u16 { le16(b, 52) }
+pub fn s_layer(fee: u16) -> u8 { ((fee >> 12) & 0b111) as u8 }
+pub fn s_stave(fee: u16) -> u8 { (fee & 0x3F) as u8 }
+
+/// doc/checks_list.md "RDH sanity check" (+ ITS system id when an ITS target is selected).
+/// `expect_header_id`: the header id the validator compares against (first one seen, or the
+/// user-configured RDH version). BC boundary: 0xDEB is the last legal bunch crossing.
+pub fn spec_rdh_sane(b: &[u8; 64], expect_header_id: u8, its: bool) -> bool {
+    let fee = s_fee_id(b);
+    s_header_id(b) == expect_header_id
+        && s_header_size(b) == 0x40
+        && (fee & 0b1000_1100_1100_0000) == 0
+        && s_stave(fee) <= 47
+        && s_layer(fee) <= 6
+        && s_priority(b) == 0
+        && (!its || s_system_id(b) == 0x20)
+        && le16(b, 6) == 0
+        // RDH1
+        && s_bc(b) <= 0xDEB
+        && (le32(b, 16) >> 12) == 0
+        // RDH2
+        && s_stop_bit(b) <= 1
+        && s_trigger_type(b) != 0
+        && (s_trigger_type(b) & 0x07FF_8000) == 0
+        && b[39] == 0
+        // RDH3
+        && le16(b, 54) == 0
+        && (s_detector_field(b) & 0x00FF_F000) == 0
+        && s_dw(b) <= 1
+        && s_data_format(b) <= 2
+}
+
+/// Stub for `alloc::fmt::format` where the caller relies on the result being non-empty.
+pub fn stub_format_nonempty(_args: core::fmt::Arguments<'_>) -> String {
+    String::from("?")
+}
